@@ -708,3 +708,156 @@ func runSlash(raw Sx) (Sx, Sx) {
 }
 
 func init() { domains["slash"] = domain{gen: genSlash, run: runSlash} }
+
+// ---- domain "twin" (C18): the same table and request under both routers ----
+func genTwin(r *Rng) Sx {
+	t, routes := genSimpleTable(r, 0)
+	// common fragment: literal root paths only
+	for i := range t.Services {
+		if strings.Contains(t.Services[i].Root, "{") {
+			t.Services[i].Root = "/" + r.Pick([]string{"q", "q/a", "z"})
+		}
+	}
+	q := genSimpleRequest(r, routes)
+	return L(t.Sx(), q.Sx())
+}
+
+func runTwin(raw Sx) (Sx, Sx) {
+	t := tableFromSx(sxNth(raw, 0))
+	q := sxReq(sxNth(raw, 1))
+	obs := Ls{}
+	var kept TableSpec
+	for router := 0; router < 2; router++ {
+		t.Router = router
+		pr := &probe{}
+		c, k, _ := buildContainer(t, pr)
+		kept = k
+		obs = append(obs, dispatchObs(c, pr, q))
+	}
+	kept.Router = 0
+	o := NewOracles()
+	tabulateRouting(o, kept, q.Path)
+	return L(o.Sx(), kept.Sx(), q.Sx()), obs
+}
+
+// ---- domain "perm" (C03): one table registered in several orders ----
+// raw = (table request perms)  perms = ((service-order (route-orders...)) ...)
+func permOf(r *Rng, n int) []int {
+	p := make([]int, n)
+	for i := range p {
+		p[i] = i
+	}
+	for i := n - 1; i > 0; i-- {
+		j := r.Intn(i + 1)
+		p[i], p[j] = p[j], p[i]
+	}
+	return p
+}
+func intsSx(p []int) Sx {
+	out := Ls{}
+	for _, x := range p {
+		out = append(out, x)
+	}
+	return out
+}
+
+func genPerm(r *Rng) Sx {
+	router := 0
+	if r.Pct(35) {
+		router = 1
+	}
+	var t TableSpec
+	var routes []genRoute
+	if r.Pct(50) {
+		t, routes = genTable(r, router, 4)
+	} else {
+		t, routes = genSimpleTable(r, router)
+	}
+	// distinct (method, template) pairs are what the property quantifies over
+	for si := range t.Services {
+		seen := map[string]bool{}
+		keep := []RouteSpec{}
+		for _, rt := range t.Services[si].Routes {
+			k := rt.Method + " " + strings.Trim(rt.Rel, "/")
+			if !seen[k] {
+				seen[k] = true
+				keep = append(keep, rt)
+			}
+		}
+		t.Services[si].Routes = keep
+	}
+	var q *Req
+	if r.Pct(50) {
+		q = genRequest(r, routes)
+	} else {
+		q = genSimpleRequest(r, routes)
+	}
+	// generate the permutations for the table as it can actually be built
+	_, t, _ = buildContainer(t, &probe{})
+	perms := Ls{}
+	for k := 0; k < 4; k++ {
+		ro := Ls{}
+		for _, s := range t.Services {
+			ro = append(ro, intsSx(permOf(r, len(s.Routes))))
+		}
+		perms = append(perms, L(intsSx(permOf(r, len(t.Services))), ro))
+	}
+	return L(t.Sx(), q.Sx(), perms)
+}
+
+func applyPerm(t TableSpec, p Sx) TableSpec {
+	so := sxList(sxNth(p, 0))
+	ro := sxList(sxNth(p, 1))
+	out := TableSpec{Router: t.Router}
+	for _, si := range so {
+		i := sxInt(si)
+		if i >= len(t.Services) {
+			continue
+		}
+		s := t.Services[i]
+		ns := ServiceSpec{Root: s.Root}
+		order := sxList(sxNth(Ls(ro), i))
+		for _, ri := range order {
+			j := sxInt(ri)
+			if j < len(s.Routes) {
+				ns.Routes = append(ns.Routes, s.Routes[j])
+			}
+		}
+		out.Services = append(out.Services, ns)
+	}
+	return out
+}
+
+func runPerm(raw Sx) (Sx, Sx) {
+	t := tableFromSx(sxNth(raw, 0))
+	q := sxReq(sxNth(raw, 1))
+	perms := sxList(sxNth(raw, 2))
+	// services that cannot be added in the given order (mux pattern conflicts) are dropped
+	// from the table for every permutation, so that all builds hold the same content
+	pr0 := &probe{}
+	_, kept, _ := buildContainer(t, pr0)
+	obs := Ls{}
+	obs = append(obs, func() Sx { pr := &probe{}; c, _, _ := buildContainer(kept, pr); return dispatchObs(c, pr, q) }())
+	usable := Ls{}
+	if len(kept.Services) != len(t.Services) {
+		perms = nil // permutations refer to a table that cannot be built as given
+	}
+	for _, p := range perms {
+		pt := applyPerm(kept, p)
+		pr := &probe{}
+		c, k2, skipped := buildContainer(pt, pr)
+		if skipped > 0 || len(k2.Services) != len(kept.Services) {
+			continue // this order trips the mux panic (finding F4 / C11): not a C03 matter
+		}
+		usable = append(usable, p)
+		obs = append(obs, dispatchObs(c, pr, q))
+	}
+	o := NewOracles()
+	tabulateRouting(o, kept, q.Path)
+	return L(o.Sx(), kept.Sx(), q.Sx(), usable), obs
+}
+
+func init() {
+	domains["twin"] = domain{gen: genTwin, run: runTwin}
+	domains["perm"] = domain{gen: genPerm, run: runPerm}
+}
